@@ -226,6 +226,9 @@ func (l *leadRun) outcomes() string {
 }
 
 func (l *leadRun) dumpTok() string {
+	if l.w.r == nil {
+		return "L 0"
+	}
 	d := l.w.r.VerifLeaderDump()
 	if !d.Active {
 		return "L 0"
@@ -405,6 +408,7 @@ func runLeaderCase(rng *rand.Rand, thorough bool, out *bufio.Writer, st *stats, 
 		nev = 6 + rng.Intn(24)
 	}
 	after := 0
+	removed := map[int]bool{}
 	for i := 0; i < nev && !w.dead; i++ {
 		d := w.r.VerifDump()
 		if !l.leading() {
@@ -434,8 +438,17 @@ func runLeaderCase(rng *rand.Rand, thorough bool, out *bufio.Writer, st *stats, 
 		for p := range lt.pendAE {
 			aePeers = append(aePeers, p)
 		}
+		replicating := map[int]bool{}
+		for _, id := range w.r.VerifLeaderDump().Replicating {
+			x, _ := strconv.Atoi(string(id))
+			replicating[x] = true
+		}
 		for p := range lt.pendHB {
-			hbPeers = append(hbPeers, p)
+			// (the heartbeat routine of a server that has been removed lives on for as long as its
+			// replication routine happens to be busy: such a heartbeat is left unanswered)
+			if replicating[p] {
+				hbPeers = append(hbPeers, p)
+			}
 		}
 		lt.mu.Unlock()
 		sort.Ints(aePeers)
@@ -551,6 +564,15 @@ func runLeaderCase(rng *rand.Rand, thorough bool, out *bufio.Writer, st *stats, 
 				}
 			case y < 18:
 				c := apiCall{kind: 'c', cmd: rng.Intn(4), id: 1 + rng.Intn(6)}
+				for removed[c.id] {
+					// (a server removed earlier in the run is not named again: the routines of its first
+					// life may still be around, and which of its two lives an answer belongs to is not
+					// something the stepped model follows)
+					c.id = 1 + rng.Intn(6)
+				}
+				if c.cmd == 3 {
+					removed[c.id] = true
+				}
 				c.addr = 10 + c.id
 				if rng.Intn(8) == 0 {
 					c.addr = 10 + 1 + rng.Intn(6)
